@@ -92,11 +92,14 @@ OPS = {
     # binary
     'add': lambda a, b: ev.add(a, b), 'sub': lambda a, b: ev.subtract(a, b), 'mul': lambda a, b: ev.multiply(a, b),
     'div': lambda a, b: ev.divide(a, b), 'pow': lambda a, b: ev.power(a, b),
-    'min': lambda a, b: ev.Minimum(*ev._numpy_align(a, b)) if hasattr(ev, '_numpy_align') else ev.Minimum(a, b),
-    'max': lambda a, b: ev.Maximum(*ev._numpy_align(a, b)) if hasattr(ev, '_numpy_align') else ev.Maximum(a, b),
-    'mod': lambda a, b: ev.mod(a, b), 'floordiv': lambda a, b: ev.FloorDivide(*_align(a, b)),
-    'gt': lambda a, b: ev.Greater(*_align(a, b)), 'lt': lambda a, b: ev.Less(*_align(a, b)), 'eq': lambda a, b: ev.Equal(*_align(a, b)),
-    'arctan2': lambda a, b: ev.arctan2(a, b),
+    'min': lambda a, b: ev.Minimum(*_align(a, b)) if a.dtype == b.dtype and a.dtype in (int, float) else _ill(),
+    'max': lambda a, b: ev.Maximum(*_align(a, b)) if a.dtype == b.dtype and a.dtype in (int, float) else _ill(),
+    'mod': lambda a, b: ev.mod(a, b) if a.dtype == b.dtype and a.dtype in (int, float) else _ill(),
+    'floordiv': lambda a, b: ev.FloorDivide(*_align(a, b)) if a.dtype == b.dtype and a.dtype in (int, float) else _ill(),
+    'gt': lambda a, b: ev.Greater(*_align(a, b)) if a.dtype == b.dtype and a.dtype in (int, float) else _ill(),
+    'lt': lambda a, b: ev.Less(*_align(a, b)) if a.dtype == b.dtype and a.dtype in (int, float) else _ill(),
+    'eq': lambda a, b: ev.Equal(*_align(a, b)) if a.dtype == b.dtype else _ill(),
+    'arctan2': lambda a, b: ev.arctan2(a, b) if a.dtype == b.dtype == float else _ill(),
     'dot': lambda a, b, axis: ev.dot(*_align(a, b), (_ax(a, axis),)) if a.ndim else _ill(),
     'matvec': lambda a, b: ev.einsum('ij,j->i', a, b), 'matmat': lambda a, b: ev.einsum('ij,jk->ik', a, b), 'outer': lambda a, b: ev.einsum('i,j->ij', a, b),
     'stack': lambda a, b, axis: ev.stack([a, b], axis), 'concat': lambda a, b, axis: ev.concatenate([a, b], axis),
@@ -368,3 +371,17 @@ def skeleton(p):
     if not isinstance(p, tuple): return ''
     if depth(p) == 0: return p[0]
     return '(' + ' '.join([p[0]] + [skeleton(q) for q in p[1:] if isinstance(q, tuple)]) + ')'
+
+_TERM_CLASSES = {'square': 'product', 'cube': 'product', 'pow_f': 'product', 'pow_i2f': 'product', 'mul': 'product', 'div': 'product', 'pow': 'product', 'matvec': 'product', 'matmat': 'product', 'outer': 'product', 'dot': 'product',
+                 'take': 'index', 'inflate': 'index', 'get': 'index', 'stack': 'index', 'concat': 'index', 'diagonalize': 'diagonalize', 'takediag': 'takediag',
+                 'loop_sum': 'loop', 'loop_concat': 'loop', 'ravel': 'ravel', 'unravel': 'ravel', 'det': 'det', 'inv': 'inv', 'sum': 'sum', 'product': 'sum', 'add': 'add', 'sub': 'add'}
+def op_classes(p):
+    """set of structural operation classes occurring in a program (identity of a termination finding: which rewrite families interact)"""
+    out = set()
+    def walk(q):
+        if isinstance(q, tuple):
+            c = _TERM_CLASSES.get(q[0])
+            if c: out.add(c)
+            for r in q[1:]: walk(r)
+    walk(p)
+    return '+'.join(sorted(out))
